@@ -75,11 +75,17 @@ v3 = K.v3
 def heading(draw):
     m = draw(st.integers(0, 5))
     psi = draw(st.sampled_from([0.0, PI / 2, -PI / 2, PI, PI / 4, -3 * PI / 4])) if m == 0 else draw(gens.fl(-PI, PI))
-    return {"psi": psi, "sign": int(draw(st.sampled_from([1, -1])))}
+    tilt = draw(st.integers(0, 2)) == 0  # the camera may also be pitched / rolled; its 3-2-1 yaw is the heading
+    return {"psi": psi, "sign": int(draw(st.sampled_from([1, -1]))),
+            "pitch": draw(gens.fl(-1.3, 1.3)) if tilt else 0.0, "roll": draw(gens.fl(-2.5, 2.5)) if tilt else 0.0}
 
 
 def qc_of(h):
-    return ref.quat_from_axis_angle([0, 0, 1.0], h["psi"], float(h["sign"]))
+    q = ref.quat_from_axis_angle([0, 0, 1.0], h["psi"], 1.0)
+    if h.get("pitch") or h.get("roll"):
+        q = ref.quat_mul(q, ref.quat_mul(ref.quat_from_axis_angle([0, 1.0, 0], h.get("pitch", 0.0), 1.0),
+                                         ref.quat_from_axis_angle([1.0, 0, 0], h.get("roll", 0.0), 1.0)))
+    return float(h["sign"]) * q
 
 
 @st.composite
